@@ -49,6 +49,10 @@ def claims(tier):
     cl = []
     for name in sorted(INTERVALS):
         cl.append(Claim("ctor[%s]" % name, c02_ctor, params={"ctor": name}, pre=[lambda s: spelled(s, K)], group="c02_ctor", timeout=300 if q else 2400, bounds="s = letter + {#,b}^<=%d (every ordering)" % K))
+    if q:
+        # quick tier: the long-accidental region (where results wrap from sharps to flats) with uniform accidentals
+        for name in sorted(INTERVALS):
+            cl.append(Claim("ctor_deep[%s]" % name, c02_ctor, params={"ctor": name}, group="c02_ctor", pre=[lambda s: 4 <= len(s) - 1 <= 7 and spelled(s, 7) and (s[1:] == "#" * (len(s) - 1) or s[1:] == "b" * (len(s) - 1))], timeout=300, bounds="s = letter + #^k or b^k, 4 <= k <= 7"))
     Km = 2 if q else 3
     for L in LETTERS:
         cl.append(Claim("measure[a0=%s]" % L, c02_measure, params={"L": L, "K": Km}, pre=[lambda a, b: a[:1] == P["L"] and spelled(a, P["K"]) and spelled(b, P["K"])], timeout=300 if q else 1800, bounds="a = %s + {#,b}^<=%d, b = letter + {#,b}^<=%d" % (L, Km, Km)))
